@@ -292,7 +292,15 @@ fn run_property(
             }
             replayed += 1;
             match replay_value(run, props, &v) {
-                Ok((true, _)) => {}
+                Ok((true, case)) => {
+                    // a tape decodes by position: a generator change can silently turn a regression
+                    // tape into a different case. Say so, so that the file gets regenerated.
+                    if let Some(rec) = v["case"].as_str() {
+                        if !case.is_empty() && rec != case {
+                            println!("note: regression tape {} no longer decodes to the recorded case (generator changed); it still passes", f.display());
+                        }
+                    }
+                }
                 Ok((false, what)) => {
                     println!("regression replay {} fails: {}", f.display(), what);
                     println!("VIOLATION property={} replay={}", prop.id, f.display());
